@@ -74,6 +74,33 @@ func runnerE2Gen(r *rand.Rand, tier string) any {
 			}
 		}
 		sc.Mode = "unknown"
+	case 3:
+		// a watch session: the graph has a hazard (a dependency on a target that does not exist
+		// yet, or a cycle), the build fails, the BUILD file is repaired, and the loaded project is
+		// reloaded and built again - nothing the first build learnt may outlive the reload
+		a := r.IntN(len(p.Targets))
+		la := p.Targets[a].label()
+		if r.IntN(2) == 0 {
+			p.Targets[a].Deps = append(p.Targets[a].Deps, "//:n777")
+			sc.Mode = "watch"
+			sc.Ops = append(sc.Ops, opSpec{Op: "build", Label: la}, opSpec{Op: "add-target", Label: "//", N: 777}, opSpec{Op: "build", Label: la, Reload: true})
+			return sc
+		}
+		if len(p.Targets) >= 2 {
+			b := (a + 1 + r.IntN(len(p.Targets)-1)) % len(p.Targets)
+			lb := p.Targets[b].label()
+			has := false
+			for _, d := range p.Targets[b].Deps {
+				has = has || d == la
+			}
+			if !has {
+				p.Targets[a].Deps = append(p.Targets[a].Deps, lb)
+				p.Targets[b].Deps = append(p.Targets[b].Deps, la)
+				sc.Mode = "watch"
+				sc.Ops = append(sc.Ops, opSpec{Op: "build", Label: la}, opSpec{Op: "remove-dep-label", Label: lb, Item: la}, opSpec{Op: "build", Label: la, Reload: true})
+				return sc
+			}
+		}
 	}
 	for k := 0; k < 1+r.IntN(3); k++ {
 		op := opSpec{Op: "build", Label: pickLabel(r, p), Always: r.IntN(4) == 0}
@@ -132,6 +159,12 @@ func runnerE2Exec(prop string) func(any, *simcheck.Ctx) *simcheck.Violation {
 		first := true
 		for i := range sc.Ops {
 			op := &sc.Ops[i]
+			if op.Op == "add-target" || op.Op == "remove-dep-label" {
+				if err := h.edit(i, op); err != nil {
+					return simcheck.V(simcheck.EngineError, "edit: %v", err)
+				}
+				continue
+			}
 			if op.Op != "build" || h.p.resolve(op.Label) == nil {
 				continue
 			}
@@ -276,7 +309,7 @@ func runnerE2Exec(prop string) func(any, *simcheck.Ctx) *simcheck.Violation {
 						}
 					}
 				}
-				if res.RunErr != nil && len(failed) == 0 && sc.Mode == "" {
+				if res.RunErr != nil && len(failed) == 0 && (sc.Mode == "" || (sc.Mode == "watch" && !specUnknown(h.p, op.Label))) {
 					return simcheck.V("wrong-run-result", "the build of %s returned %v although no body failed in this build and the graph has neither cycles nor unknown targets", op.Label, res.RunErr)
 				}
 				if rootOutcome == "ok" && res.RunErr != nil {
@@ -290,6 +323,18 @@ func runnerE2Exec(prop string) func(any, *simcheck.Ctx) *simcheck.Violation {
 		}
 		return nil
 	}
+}
+
+// specUnknown: does some target in the closure of label name a dependency that does not exist?
+func specUnknown(p *projSpec, label string) bool {
+	for _, t := range p.closure(label) {
+		for _, d := range t.Deps {
+			if p.resolve(d) == nil {
+				return true
+			}
+		}
+	}
+	return false
 }
 
 func itoa(n int) string {
